@@ -274,6 +274,27 @@ func init() {
 				if rng.Intn(40) == 0 {
 					outH = 36
 				}
+				if rng.Intn(25) == 0 { // an element whose quadkey zoom is outside 1..31 but a legal OUTPUT zoom (0, 32..35), asked for at
+					// exactly its own zooms: still an error for the whole call
+					zq := []int64{0, 0, 32, 33, 35}[rng.Intn(5)]
+					zv := randZoom()
+					if rng.Intn(3) == 0 {
+						zv = zq
+					}
+					q := int64(rng.Intn(3000))
+					if zq == 0 {
+						q = int64(rng.Intn(2))
+					}
+					e := fmt.Sprintf("%d:%d:%d:%d", zq, q, zv, randF(zv))
+					l = []string{e} // (alone: valid elements of other zooms would be expanded to zoom zq before the error)
+					if rng.Intn(2) == 0 {
+						l = append(l, fmt.Sprintf("%d:%d:%d:%d", zq, q+1, zv, randF(zv)))
+					}
+					outH, outV = zq, zv
+					if zv == zq {
+						do("qv2sp", join(l), s(zq))
+					}
+				}
 				if rng.Intn(4) == 0 { // spatial-ID variant: one zoom, bounded expansion on both axes
 					z := zoomNear(qz, 2, 1)
 					if vz > z+4 || vz < z-5 {
